@@ -73,6 +73,10 @@ func WithGlobalTx(ctx context.Context, gc *GtxConfig, business CallbackWithCtx) 
 			}
 		}
 
+		if deferErr != nil && re == nil {
+			// a business panic is a first phase failure, not a silent success
+			re = fmt.Errorf("business panic: %v", deferErr)
+		}
 		if re != nil || err != nil {
 			re = fmt.Errorf("first phase error: %v, second phase error: %v", re, err)
 		}
